@@ -427,6 +427,39 @@ class Sym:
         return Sym(self.re, vneg(self.im))
     conj = conjugate
 
+    # NumPy-scalar surface (the result of arithmetic on 0-d arrays is a scalar that still has these)
+    ndim = 0
+    shape = ()
+    size = 1
+
+    def _axis_ok(self, axis):
+        if axis not in (None, 0, -1, ()):
+            raise numpy.exceptions.AxisError("axis %r is out of bounds for array of dimension 0" % (axis,))
+
+    def sum(self, axis=None, *a, **k):
+        self._axis_ok(axis)
+        return self
+
+    def mean(self, axis=None, *a, **k):
+        self._axis_ok(axis)
+        return self
+    max = min = prod = sum
+
+    def item(self):
+        return self
+
+    def copy(self):
+        return self
+
+    def squeeze(self, axis=None):
+        return self
+
+    def ravel(self):
+        a = numpy.empty(1, dtype=object)
+        a[0] = self
+        return a.view(SA)
+    flatten = ravel
+
     @property
     def real(self):
         return Sym(self.re)
